@@ -125,6 +125,23 @@ def run(tier, seed, which="C14"):
         ty = rng.choice(gen.TYPES_NUC if kind == "dna" else gen.TYPES_PROT)
         members = [dict(names=["read"] * n, seqs=v, type=ty, threads=1, dump_in=True) for v in variants]
         groups.append(dict(gid="samename_%d" % i, rel="pattern", prop="C14", members=members, key="samename:%s:%d" % (base, ty)))
+    # residues that spell words a format sniffer might look for (all letters are amino-acid codes), in upper, lower and mixed
+    # case, on the first residue line and further down; protein and - where the letters allow - nucleotide inputs
+    words = ["CLUSTAL", "CLUSTALW", "MSF", "MULTIPLE", "ALIGNMENT", "SEQUENCE", "NAME", "LEN", "CHECK", "WEIGHT", "KALIGN", "PILEUP", "TYPE", "FASTA", "STOCKHLM", "GAP"]
+    for i in range(10 if tier == "quick" else 80):
+        n = rng.randint(3, 6)
+        L = rng.randint(30, 70)
+        base = [x + "LKEF" for x in gen.family(rng, n, L, gen.AA, sub=0.15, indel=0.03)]
+        ws = rng.sample(words, 3) if i else ["CLUSTAL", "MSF", "MULTIPLESEQUENCEALIGNMENT"]
+        for w in ws:
+            j = rng.randrange(n)
+            k = rng.randint(0, max(0, len(base[j]) - 1)) if i % 2 else 0
+            base[j] = base[j][:k] + w + base[j][k:]
+        variants = [base, [x.lower() for x in base], [gen.case_mask(rng, x, 0.5) for x in base],
+                    ["".join(c.lower() if c in "CLUSTAMF" else c for c in x) for x in base]]
+        ty = rng.choice([3, 4, 5])
+        members = [dict(names=["p%d" % j for j in range(n)], seqs=v, type=ty, threads=1, dump_in=True, width=rng.choice([60, 200])) for v in variants]
+        groups.append(dict(gid="words_%d" % i, rel="pattern", prop="C14", members=members, key="words:%s:%d" % (base, ty)))
     V.sample(dict(group="case_all_0", base=tiny[0][0], variants="all 2^k case masks"))
     rel.run_groups(V, groups, wd, per_batch=4)
     return V.finish(rule="5 real code tables (128 entries each) checked for case/T-U blindness; groups = base input + re-spelled variants "
